@@ -73,14 +73,16 @@ func genText(rng *rand.Rand) (string, string) {
 // reference field splitting for the two delimiters used here
 var awkField = regexp.MustCompile(`[^ \t]+[ \t]*`)
 
-func fields(s string, delim string) []string {
+// Fields: reference field splitting (AWK when delim is empty, else literal delimiter).
+func Fields(s string, delim string) []string {
 	if delim == "" {
 		return awkField.FindAllString(strings.TrimLeft(s, " \t"), -1)
 	}
 	return strings.SplitAfter(s, delim)
 }
 
-func sel(fs []string, a, b int, single bool) string {
+// Sel: reference field selection (1-based, negative from the end, 0 = open).
+func Sel(fs []string, a, b int, single bool) string {
 	n := len(fs)
 	norm := func(i int) int {
 		if i < 0 {
@@ -109,7 +111,7 @@ func sel(fs []string, a, b int, single bool) string {
 }
 
 func fieldWord(s, delim string, a, b int, single, preserve bool) string {
-	out := sel(fields(s, delim), a, b, single)
+	out := Sel(Fields(s, delim), a, b, single)
 	if delim != "" {
 		out = strings.TrimSuffix(out, delim)
 	}
